@@ -40,7 +40,7 @@ EmptyRes == [s \in Sections |-> <<>>]
 \* an element: <<file, first line, number of lines, chain>>; chain = the including directives <<file, line>>
 StartState(f, sec, chain, res) ==
   [ln |-> 1, sec |-> sec, mode |-> "top", start |-> 0, res |-> res, act |-> None, err |-> None,
-   file |-> f, chain |-> chain, unspec |-> FALSE]
+   file |-> f, chain |-> chain, unspec |-> FALSE, hdrs |-> <<>>]
 
 Fail(st, kind, line) == [st EXCEPT !.err = <<kind, st.file, line, st.chain>>]
 AddElem(st, first, count) ==
@@ -68,7 +68,7 @@ Step(st, k, files) ==
        ELSE IF k = "MLs" THEN Adv([st EXCEPT !.mode = "here", !.start = st.ln])
        ELSE [Fail(st, "syntax", st.ln) EXCEPT !.unspec = TRUE]     \* which line is blamed is not specified
   ELSE IF IsHeaderLine(k) THEN
-       IF k \in DOMAIN Headers THEN Adv([CloseAct(st) EXCEPT !.sec = Headers[k]])
+       IF k \in DOMAIN Headers THEN Adv([CloseAct(st) EXCEPT !.sec = Headers[k], !.hdrs = Append(@, st.ln)])
        ELSE Fail(st, "syntax", st.ln)
   ELSE IF st.sec = "act" THEN
        \* the act phase: every line up to the next header belongs to one source block
@@ -138,6 +138,23 @@ MergeInFileOrder ==
   LET r == Result IN r.err = None =>
     \A s \in Sections : \A a \in 1..Len(r.res[s]) : \A b \in (a+1)..Len(r.res[s]) :
        (r.res[s][a][4] = <<>> /\ r.res[s][b][4] = <<>>) => r.res[s][a][2] < r.res[s][b][2]
+\* The order in which phases are declared has no influence: exchanging two adjacent declarations of DIFFERENT
+\* phases (a declaration = a recognised header line and everything up to the next recognised header line)
+\* leaves, for every phase, the sequence of its elements - the source lines they consist of - unchanged.
+NumDecl == Len(Result.hdrs)
+DeclStart(j) == Result.hdrs[j]
+DeclEnd(j) == IF j < NumDecl THEN Result.hdrs[j + 1] - 1 ELSE Len(doc)
+Exchanged(j) == SubSeq(doc, 1, DeclStart(j) - 1) \o SubSeq(doc, DeclStart(j + 1), DeclEnd(j + 1))
+                \o SubSeq(doc, DeclStart(j), DeclEnd(j)) \o SubSeq(doc, DeclEnd(j + 1) + 1, Len(doc))
+ElementTexts(d, r, s) == [j \in 1..Len(r.res[s]) |-> SubSeq(d, r.res[s][j][2], r.res[s][j][2] + r.res[s][j][3] - 1)]
+OrderIrrelevant ==
+  (Includes = "none" /\ Result.err = None) =>
+     \A j \in 1..(NumDecl - 1) :
+        (doc[DeclStart(j)] # doc[DeclStart(j + 1)]) =>
+           LET d2 == Exchanged(j)
+               r2 == FinishFile(RunDoc(StartState("main", "act", <<>>, EmptyRes), d2, [main |-> <<>>, B |-> <<>>, C |-> <<>>]))
+           IN r2.err = None /\ \A s \in Sections : ElementTexts(d2, r2, s) = ElementTexts(doc, Result, s)
+
 \* an error never goes away by appending lines, and the first error wins
 FirstErrorWins == [][st.err # None => st'.err = st.err]_vars
 \* the reader always terminates with a result or an error (inclusion cycles included): Result is defined
